@@ -423,6 +423,8 @@ def rule_cell_moments(ctx, rule='R15.10'):
 
 
 def run(ctx):
+    from . import c02 as _c02
+    _c02.rule_components(ctx)             # R02.2: ghost-box image loops of every gravity routine treat the three axes alike
     rule_cell_moments(ctx)
     rule_axis_conditions(ctx)
     serial.rule_R05_2(ctx)                 # the box and root-grid geometry of a restored simulation: each descriptor row designates the member it names
